@@ -21,6 +21,10 @@ TRACE_SPEC = os.path.join(SPECS, "lex", "PSLexTrace.tla")
 ACTIONS = ["ARefill", "AFlush", "AMain", "AComment", "ALiteral", "ALitHex", "ANumber", "AFloat",
            "AKeyword", "AString", "AString1", "AStringLF", "AWOpen", "AWClose", "AHexStr"]
 
+# other members of the lexical byte classes that Alpha24 represents by one byte each
+CLASS_MEMBERS = {32: b"\t \x0b", 49: b"0234567", 56: b"89", 97: b"cdeACDE", 98: b"fBF", 110: b"tr", 120: b"QzGhijklmopqsuvwy_", 43: b"-",
+                 42: b"!~$&'\"=@^`|,;:?", 128: b"\x7f\xff\x80\xa0", 12: b"\x0c", 91: b"[", 0: b"\x00"}
+
 CONFIGS = {
     "quick": [("Alpha24", 3, (1, 2, 4)), ("AlphaString", 4, (1, 2, 3, 5)), ("AlphaHexName", 4, (1, 2, 3, 5)),
               ("AlphaNumKw", 4, (1, 2, 3, 5)), ("AlphaComment", 5, (1, 2, 3, 6)), ("AlphaEsc", 5, (1, 2, 3, 6))],
@@ -106,7 +110,16 @@ def direction_a(ck, dev):
         os.remove(emit)
         if n != res.emitted or n == 0:
             raise MachineryError("emitted %d terminal states but replayed %d" % (res.emitted, n))
+        members = CLASS_MEMBERS if alpha == "Alpha24" else None
         for data, results in groups.items():
+            if members and len(data) >= 2:
+                # the byte classes are represented by one member each in the enumeration: substitute other members of
+                # the same class and evaluate the C14 predicates on the real tokenizer (no model prediction needed)
+                for r in range(2):
+                    alt = bytes(members[b][(r + i) % len(members[b])] if b in members else b for i, b in enumerate(data))
+                    if alt != data:
+                        check_real(ck, alt, {B: real_tokens(alt, B) for B in (1, 2, len(alt) + 1, 4096)}, origin="class-member variant of %r" % data)
+                        ck.case(4, None)
             results[len(data) + 1] = real_tokens(data, len(data) + 1)
             results[4096] = real_tokens(data, 4096)
             check_real(ck, data, results, origin="%s^%d" % (alpha, maxlen))
